@@ -255,7 +255,8 @@ def parse_eflr(tokens):
     1 SET descriptor; 2 set type / name; 3 template attribute; 4 duplicate or empty label; 5 no object;
     6 OBJECT descriptor / name; 7 more components than template entries; 8 attribute component malformed
     (incl. value announced and omitted, undefined code); 9 label inside an object; 10 ABSATR with characteristics;
-    11 bytes left over / unknown role."""
+    11 bytes left over / unknown role; 12 an object attribute component without a value whose count is not 0 (the value
+    should have been marked absent)."""
     cur = Cur(tokens)
     d = cur.byte()
     if d is None or d // 32 != 7 or d // 16 % 2 != 1 or d % 8 != 0:
@@ -321,6 +322,8 @@ def parse_eflr(tokens):
                 a = attr_component(cur, d, False, s.template[k])
                 if a is None:
                     return (None, 8)
+                if not a.has_value and a.count != 0:
+                    return (None, 12)      # a component that announces values (count) and carries none
             attrs.append(a)
             k = k + 1
         s.objects.append((ob, attrs))
